@@ -2125,6 +2125,9 @@ class ArrayMixin(MonadMixin):
         return BoolExprMonad(['GT', ['ARRAY_LENGTH', monad.getsql()[0]], ['VALUE', 0]])
 
     def _index(monad, index, from_one, plus_one):
+        if not from_one and isinstance(index, NumericMixin):
+            # SQLite: py_array_index and py_array_slice have the semantics of Python indexes and slices, negative values included
+            return index.getsql()[0]
         if isinstance(index, NumericConstMonad):
             expr_sql = monad.getsql()[0]
             index_sql = index.getsql()[0]
